@@ -1554,9 +1554,15 @@ private:
 
     TINS_BEGIN_PACK
     struct multicast_listener_query_message_fields {
-        uint8_t reserved:4,
-                supress:1,
-                qrv:3;
+        #if TINS_IS_LITTLE_ENDIAN
+            uint8_t qrv:3,
+                    supress:1,
+                    reserved:4;
+        #else
+            uint8_t reserved:4,
+                    supress:1,
+                    qrv:3;
+        #endif
         uint8_t qqic;
     } TINS_END_PACK;
     
